@@ -166,8 +166,7 @@ impl ServerProc {
         let mut child = cmd.spawn().map_err(|e| format!("spawn {}: {}", SERVER_BIN, e))?;
         let out = Arc::new(Mutex::new(Vec::new()));
         let readers = vec![spawn_reader(child.stdout.take().unwrap(), out.clone()), spawn_reader(child.stderr.take().unwrap(), out.clone())];
-        let seed = crate::refcodec::unhex(&cfg.seed_hex);
-        let pk = if seed.len() == 32 { RefKey::from_seed(&seed).public() } else { vec![] };
+        let pk = if cfg.seed_hex.len() == 64 && cfg.seed_hex.bytes().all(|c| c.is_ascii_hexdigit()) { RefKey::from_seed(&crate::refcodec::unhex(&cfg.seed_hex)).public() } else { vec![] };
         Ok(ServerProc { child, port, hc_port: hc, dir, pk, out, readers, _leases: leases, started: Instant::now() })
     }
 
